@@ -114,6 +114,12 @@ def run(ctx, chk):
     # reference for each of the four selections - branches, masks or tables all give the same function
     from .. import bvproof as _bv
     from ..bdd import BDD as _BDD, BV as _BV, TermBV as _TermBV, Unsupported as _Uns
+    lib_ = sorted(set(e_[1].split('::')[-1] for r in rs for e_ in r.state.events if e_[0] == 'extcall' and
+                      any(k_ in e_[1] for k_ in ('iter', 'Iterator', 'fold', 'IntoIter'))))
+    if lib_:
+        chk.error('C17.2: get_value computes the register through %s, which this check does not model (no verdict on the '
+                  'clauses that evaluate the P1 read)' % lib_)
+        return chk.finish('get_value not evaluable')
     okp = [r for r in rs if r.status == 'ok' and r.ret is not None and T.is_int(r.ret)]
     if len(okp) != len(rs) or not okp:
         chk.fail('C17.2', 'get_value:diverge', 'get_value can diverge', file, None)
